@@ -356,6 +356,7 @@ def hasTy : Ty → Val → Bool
   | .bool, .bool _ => true
   | .float, .flt _ => true
   | .strToBool, .bool _ => true
+  | .toBool, .bool _ => true
   | .memory, .int _ => true
   | .qos, .str _ => true
   | _, _ => false
